@@ -214,6 +214,9 @@ def generate(ctx):
                 c = dict(s)
                 c['rest'] = lst
                 c['target'] = _pick_target(rng)
+                if rng.random() < 0.2:
+                    c['reuse'] = [10 ** rng.uniform(2, 16), 10 ** rng.uniform(-3, 4),
+                                  rng.choice([[0], [0, 1, 24], [2, 0.5]]), 10 ** rng.uniform(-3, -0.1)]
                 yield 'decay', c
         # acceptance probes: the root finder's answer is degraded by 0.5 % (must be refused with RuntimeError,
         # never returned) and by 0.02 % (inside the band); targets well below A(0), rest_times=[0]
@@ -245,9 +248,21 @@ def _formula_text(case):
                    for z, a, n in case['atoms'])
 
 
-def _activate(case, rest):
+def _activate(case, rest, reference=False):
     A = _state['A']
     s = A.Sample(_formula_text(case), case['mass'])
+    if case.get('reuse') and not reference:
+        # the same Sample object was used for an earlier, different calculation (and asked for a
+        # decay time) before the calculation under test: an irradiation plan that is revised
+        f0, x0, r0, tfrac = case['reuse']
+        env0 = A.ActivationEnvironment(fluence=f0, Cd_ratio=case['Cd_ratio'], fast_ratio=case['fast_ratio'])
+        try:
+            s.calculate_activation(env0, exposure=x0, rest_times=r0)
+            a0 = sum(v[0] for v in s.activity.values())
+            if a0 > 0:
+                s.decay_time(a0 * tfrac)
+        except Exception:
+            _state['reuse_first_step_raised'] = _state.get('reuse_first_step_raised', 0) + 1
     env = A.ActivationEnvironment(fluence=case['fluence'], Cd_ratio=case['Cd_ratio'], fast_ratio=case['fast_ratio'])
     s.calculate_activation(env, exposure=case['exposure'], rest_times=rest)
     return s
@@ -308,7 +323,7 @@ def check_decay(ctx, case):
         s0 = _state['cache'][1]
     else:
         try:
-            s0 = _activate(case, [0])
+            s0 = _activate(case, [0], reference=True)
         except Exception as exc:
             # the activation itself failed: that is property C14's subject, decay_time was never reached
             ctx.count('skipped.activation_raised_' + type(exc).__name__)
